@@ -178,7 +178,38 @@ def _c13(tier, seed):
     return [dict(name="schema", pkg="telegram", harness=TL2_HARNESS, pre=_gen_schema, overlay=TL_OVERLAY, native_overlay=TL_OVERLAY, runs=runs + wire, solver="z3", walllimit=120, timeout=3000,
                  validate_runs=["H_C13_wrappers()", "H_C13_def(5)", "H_C13_def(900)"])]
 
+TL3_HARNESS = TL2_HARNESS + ["harness/telegram/c15.go"]
+N_IDS = 1240
+
+
+def _c15(tier, seed):
+    q = tier == "quick"
+    W = 3 if q else 5
+    runs = ["H_C15_container(%d)" % (4 if q else 6), "H_C15_gzip(2,1)", "H_C15_gzip(2,0)"]
+    idxs = _sample(seed + 3, 1227, 70) if q else range(N_IDS)
+    for k in idxs:
+        runs.append("H_C15_unknown(%d,%d,0)" % (k, W))
+    for k in (_sample(seed + 4, 1227, 20) if q else range(0, N_IDS, 3)):
+        runs.append("H_C15_unknown(%d,%d,1)" % (k, W))
+    for k in (_sample(seed + 5, N_STRUCTS, 30) if q else range(N_STRUCTS)):
+        runs.append("H_C15_named(%d,%d)" % (k, W))
+    if not q:
+        runs.append("H_C15_anyid(1)")
+    kern = ["H_popmessage_arbitrary(%d)" % (10 if q else 16)]
+    return [
+        dict(name="arbitrary", pkg="telegram", harness=TL3_HARNESS, pre=_gen_schema, overlay=TL_OVERLAY, native_overlay=TL_OVERLAY, runs=runs, solver="z3", walllimit=(60 if q else 300), timeout=3000,
+             validate_runs=["H_C15_unknown(%d,3,0)" % (seed % 1200), "H_C15_unknown(%d,3,1)" % ((seed + 77) % 1200), "H_C15_named(%d,3)" % ((seed + 5) % 1100), "H_C15_container(4)", "H_C15_gzip(2,1)"]),
+        dict(name="strings", pkg="internal/encoding/tl", harness=["harness/tl/kernel.go"], runs=kern, solver="z3", procs=1, timeout=1500, validate_runs=kern, covers={"H_popmessage_arbitrary": ["accepted"]}),
+    ]
+
 PROPS = {
+    "C15": dict(
+        jobs=_c15,
+        bounds={"quick": "70 seed-chosen registered ids (enums included) followed by up to 3 arbitrary 32-bit words cut at every word boundary and one byte short of it; 20 with vector hints; 30 named decodes; msg_container and gzip_packed (identity-coded gzip stub) with arbitrary bodies; nested constructor ids from the stated candidate set (2 implementers per interface-typed field one level deep, one enum member, pong/rpc_error/msgs_ack, unregistered); allocation obligation size*elem <= 16*len(input)+4096 at every make/MakeSlice with a symbolic size; sizes <= 3 exhaustive, 1 larger representative",
+                "thorough": "all registered ids, 5 words; an arbitrary first word"},
+        outside="inputs longer than the bound; nested ids outside the candidate set; real gzip streams (the stub codes gzip(x) = marker+x); loops are unrolled by execution and every run ended (termination within the bound)",
+        assumptions=["compress/gzip modelled as identity coding with a header marker", "reflect modelled by the engine"],
+    ),
     "C02": dict(
         jobs=_c02,
         bounds={"quick": "as C01 quick, oracle = reference encoder driven by the schema text (regenerated from schemes/*.tl on every run): shared-bit constructors x 12 patterns, service objects, 120 seed-chosen constructors x 4 patterns; string headers for lengths 0..9, 250..258, 65534..65537, 2^24, 2^24+1",
